@@ -1258,3 +1258,58 @@ Proof.
   destruct (Hok eq_refl) as (Hst & _ & Hb'). cbn [option_map] in Hst. inversion Hst; subst st'.
   split; [reflexivity|]. rewrite (Hb' eq_refl). rewrite ndrop_all by lia. apply app_nil_r.
 Qed.
+
+(* ------------------------------------------------------------------ H. the VolatileSlice route
+   Kinds 11 / 12 of the suite drive the descriptor through VolatileSlice::{read_volatile_from,
+   read_exact_volatile_from, write_volatile_to, write_all_volatile_to}(0, fd, len) on the buffer's own
+   slice (transcribed in Impl/IoGuest.v: vs_upto / vs_exact).  With addr = 0 and count = the slice's
+   length that is the very computation of the direct ReadVolatile / WriteVolatile call, so the suite
+   judges both routes with the same model step. *)
+From VM Require Import Impl.IoGuest.
+
+Lemma vs_route_exact_lemma {S} zerr fuel (call : callT S) b s m : buf_ok b ->
+  vs_exact zerr fuel call (win b) 0 s m (nlen b) = exact_volatile zerr fuel call s m (win b).
+Proof.
+  intros Hb. unfold buf_ok in Hb. unfold vs_exact, vs_subslice, checked_add. cbn [win vs_len vs_addr vs_off].
+  rewrite N.add_0_l. destruct (N.ltb_spec (nlen b) W64); [|lia].
+  destruct (N.ltb_spec (nlen b) (nlen b)); [lia|]. reflexivity.
+Qed.
+Lemma vs_route_upto_lemma {S} fuel (call : callT S) b s m : buf_ok b ->
+  vs_upto fuel call (win b) 0 s m (nlen b) = retry_eintr fuel call s m (win b).
+Proof.
+  intros Hb. unfold buf_ok in Hb. unfold vs_upto, vs_offset, vs_subslice, checked_add, checked_sub.
+  cbn [win vs_len vs_addr vs_off].
+  destruct (N.ltb_spec (4096 + margin + 0) W64); [|lia]. destruct (N.leb_spec 0 (nlen b)); [|lia].
+  cbn [vs_len vs_addr vs_off]. rewrite N.sub_0_r, N.min_id, N.add_0_l.
+  destruct (N.ltb_spec (nlen b) W64); [|lia]. destruct (N.ltb_spec (nlen b) (nlen b)); [lia|].
+  rewrite !N.add_0_r. reflexivity.
+Qed.
+(* the descriptor oracles of the suite never answer EINTR: the retry loop is one call *)
+Lemma retry_fd_read k f st m v : is_fd k = true ->
+  retry_eintr (Datatypes.S f) (read_volatile_raw_fd (os_read_of k)) st m v = read_volatile_raw_fd (os_read_of k) st m v.
+Proof.
+  intros _. cbn [retry_eintr]. unfold read_volatile_raw_fd.
+  destruct (os_read_cases k st (vs_len v)) as (f' & r & -> & [->|(bs & -> & _)]); reflexivity.
+Qed.
+Lemma retry_fd_write k f st m v : is_fd k = true ->
+  retry_eintr (Datatypes.S f) (write_volatile_raw_fd (os_write_of k)) st m v = write_volatile_raw_fd (os_write_of k) st m v.
+Proof.
+  intros _. cbn [retry_eintr]. unfold write_volatile_raw_fd.
+  destruct (os_write_count k st (mem_read m (vs_off v) (vs_len v))) as (f' & n & -> & _). reflexivity.
+Qed.
+
+Lemma slice_route_same_lemma : forall k b st f, is_fd k = true -> buf_ok b ->
+  vs_read_volatile_from (Datatypes.S f) (read_volatile_raw_fd (os_read_of k)) (win b) 0 st (arena b) (nlen b)
+    = read_volatile_raw_fd (os_read_of k) st (arena b) (win b)
+  /\ vs_read_exact_volatile_from (fuel_of b) (read_volatile_raw_fd (os_read_of k)) (win b) 0 st (arena b) (nlen b)
+    = read_exact_volatile (fuel_of b) (read_volatile_raw_fd (os_read_of k)) st (arena b) (win b)
+  /\ vs_write_volatile_to (Datatypes.S f) (write_volatile_raw_fd (os_write_of k)) (win b) 0 st (arena b) (nlen b)
+    = write_volatile_raw_fd (os_write_of k) st (arena b) (win b)
+  /\ vs_write_all_volatile_to (fuel_of b) (write_volatile_raw_fd (os_write_of k)) (win b) 0 st (arena b) (nlen b)
+    = write_all_volatile (fuel_of b) (write_volatile_raw_fd (os_write_of k)) st (arena b) (win b).
+Proof.
+  intros k b st f Hk Hb. unfold vs_read_volatile_from, vs_write_volatile_to, vs_read_exact_volatile_from,
+    vs_write_all_volatile_to, read_exact_volatile, write_all_volatile.
+  rewrite !vs_route_upto_lemma, !vs_route_exact_lemma by exact Hb.
+  rewrite retry_fd_read, retry_fd_write by exact Hk. repeat split; reflexivity.
+Qed.
